@@ -147,7 +147,9 @@ Definition caret_up_c (t : term) (n : Z) : res term * cost :=
   (limit_caret_pos (fst r), cadd (mkCost 1 1 0) (snd r)).
 (* REP: the weight of one print_char is 1 plus the scroll an auto-wrap may trigger when margins are set *)
 Definition print_weight (t : term) : Z := 1 + (if needs_scrolling t then snd (scroll_up_t t) else 0).
-Definition rep_c (t : term) (c : cell) (n : Z) := iter_cost_res n (fun x => print_char x c) print_weight t.
+Definition rep_c (t : term) (c : cell) (n : Z) := iter_cost_res (Z.min n (rep_limit t)) (fun x => print_char x c) print_weight t.
+(* the code before the fix: one print_char per count *)
+Definition rep_c_before_fix (t : term) (c : cell) (n : Z) := iter_cost_res n (fun x => print_char x c) print_weight t.
 
 (* ---- one CSI final byte (no intermediate): outcome and cost ----------------------------------------------------------------------- *)
 Definition out_grow (t : term) (o : outcome) : Z := match o with OOk m | OErr m | ODeep m => grow t (tm m) | OPanic _ => 0 end.
@@ -226,8 +228,6 @@ Definition csi_sp_c (t : term) (p : pst) (ch : Z) : outcome * cost :=
   else if ch =? 100 then (match nums p with [n] => ok (remove_tab_stop t (n - 1)) d | _ => err t d end, mkCost 1 1 0)
   else (err t d, mkCost 1 1 0).
 
-(* the known class of this dispatcher: REP with a count beyond the screen *)
-Definition KnownC03_rep (t : term) (p : pst) (ch : Z) : Prop := ch = 98 /\ tw t * th t < first_or (nums p) 1.
 
 (* ---- rectangular-area operations: cells visited (the area is clamped by get_rect_area) ------------------------------------------------ *)
 Definition rect_ticks (t : term) (a b c d : Z) : Z :=
